@@ -18,4 +18,4 @@ cp -r SEED/patch.diff SEED/demo /verif/seeded/$ID/
 cp SEED/meta.json /verif/seeded/$ID/agent_meta.json
 cd /verif
 git -C /repo worktree remove --force "$WT"
-/verif/tools/try_seed.sh /verif/seeded/$ID/patch.diff "$@"
+SLOT=${SLOT:-t} /verif/tools/try_seed_wt.sh /verif/seeded/$ID/patch.diff "$@"
